@@ -90,6 +90,13 @@ type PathOracle struct {
 	// Correlate: when the error result `errIdx` of a tuple call is refined to nil, the
 	// results listed become non-nil (callee contract).
 	Correlate func(call *ssa.Call) (errIdx int, nonNilWhenOK []int, ok bool)
+	// CorrelateErr: when the error result is refined to non-nil, the results listed become nil.
+	CorrelateErr func(call *ssa.Call) (errIdx int, nilWhenErr []int, ok bool)
+	// Pre is called before an instruction is (re-)executed, i.e. before refinements of the
+	// value it defines are dropped.
+	Pre func(st *PState, in ssa.Instruction)
+	// NonNilParams: pointer-typed parameters are non-nil (precondition of the contract).
+	NonNilParams bool
 	// Visit is called for every instruction on every path, in order.
 	Visit func(st *PState, in ssa.Instruction)
 	// AtReturn is called at each return.
@@ -116,6 +123,12 @@ func (s *PState) Get(v ssa.Value, o *PathOracle) AbsVal {
 			return AvNil
 		}
 		return AvNonNil
+	case *ssa.Parameter:
+		if o != nil && o.NonNilParams {
+			if _, isPtr := x.Type().Underlying().(*types.Pointer); isPtr {
+				return AvNonNil
+			}
+		}
 	case *ssa.MakeInterface:
 		// an interface holding a nil pointer is non-nil as an interface value
 		return AvNonNil
@@ -216,6 +229,23 @@ func (s *PState) refineCond(cond ssa.Value, truth bool, o *PathOracle) bool {
 func (s *PState) refineVal(v ssa.Value, a AbsVal, o *PathOracle) {
 	v = s.canon(v)
 	s.vals[v] = a
+	if e, ok := v.(*ssa.Extract); ok && a == AvNonNil && o != nil && o.CorrelateErr != nil {
+		if call, ok := e.Tuple.(*ssa.Call); ok {
+			if errIdx, nn, ok := o.CorrelateErr(call); ok && errIdx == e.Index {
+				for _, ref := range *call.Referrers() {
+					if e2, ok := ref.(*ssa.Extract); ok {
+						for _, i := range nn {
+							if e2.Index == i {
+								if _, set := s.vals[e2]; !set {
+									s.vals[e2] = AvNil
+								}
+							}
+						}
+					}
+				}
+			}
+		}
+	}
 	if e, ok := v.(*ssa.Extract); ok && a == AvNil && o != nil && o.Correlate != nil {
 		if call, ok := e.Tuple.(*ssa.Call); ok {
 			if errIdx, nn, ok := o.Correlate(call); ok && errIdx == e.Index {
@@ -322,6 +352,9 @@ func ExplorePaths(fn *ssa.Function, o *PathOracle) bool {
 		var term ssa.Instruction
 		for _, in := range it.b.Instrs {
 			if _, isPhi := in.(*ssa.Phi); !isPhi {
+				if o.Pre != nil {
+					o.Pre(st, in)
+				}
 				if v, isVal := in.(ssa.Value); isVal {
 					// re-executed in a loop: earlier refinements of this value are stale
 					delete(st.vals, v)
@@ -352,8 +385,9 @@ func ExplorePaths(fn *ssa.Function, o *PathOracle) bool {
 				// such cells are written by the closure's own stores, which we do not see: forget
 				// cells whose address escaped into a closure called here.
 				if mc, ok := x.Call.Value.(*ssa.MakeClosure); ok {
-					for _, b := range mc.Bindings {
-						if a, ok := b.(*ssa.Alloc); ok {
+					cf, _ := mc.Fn.(*ssa.Function)
+					for i, b := range mc.Bindings {
+						if a, ok := b.(*ssa.Alloc); ok && (cf == nil || closureStoresFreeVar(cf, i, 0)) {
 							delete(st.cells, a)
 						}
 					}
@@ -417,4 +451,38 @@ func traceString(c *Ctx, st *PState) []string {
 		out = append(out, fmt.Sprintf("b%d(%s)", b.Index, c.Pos(pos)))
 	}
 	return out
+}
+
+// closureStoresFreeVar: the closure (or a closure nested in it that captures the same
+// variable) assigns its i-th free variable.
+func closureStoresFreeVar(cf *ssa.Function, i int, depth int) bool {
+	if i >= len(cf.FreeVars) || depth > 4 {
+		return true
+	}
+	fv := cf.FreeVars[i]
+	found := false
+	allInstrs(cf, func(in ssa.Instruction) {
+		switch x := in.(type) {
+		case *ssa.Store:
+			if x.Addr == ssa.Value(fv) {
+				found = true
+			}
+		case *ssa.MakeClosure:
+			for j, b := range x.Bindings {
+				if b == ssa.Value(fv) {
+					if nf, ok := x.Fn.(*ssa.Function); ok && closureStoresFreeVar(nf, j, depth+1) {
+						found = true
+					}
+				}
+			}
+		case ssa.CallInstruction:
+			// the address of the variable handed to a callee
+			for _, a := range x.Common().Args {
+				if a == ssa.Value(fv) {
+					found = true
+				}
+			}
+		}
+	})
+	return found
 }
